@@ -42,7 +42,7 @@ ASSUMPTIONS = [
     "'the same molecule' = canonical SMILES and heavy-atom mass (1e-6); coordinates are not compared (embedding is a stub)",
     "seeded generators are numpy default_rng(seed) (real numpy) or SimRng(seed, faithful policy); faults need SimRng",
     "under a fault only the faulted call may raise; nothing else may change",
-    "the thorough tier additionally recomputes a sample of baseline entries in fresh interpreters under other PYTHONHASHSEEDs",
+    "2-3 % of the histories additionally recompute their baseline entries in fresh interpreters under two other PYTHONHASHSEEDs (process restart)",
 ]
 COMPONENTS = {"real": ["parser, generator, graphs, mol_prob, force-field typing, numpy default_rng"],
               "stub": ["3-D embedding (zero conformer; 'embed_fail' fault = no conformer)", "SimRng in runs that inject rng faults"]}
@@ -364,7 +364,9 @@ def spec_from_seed(run_seed, tier):
         enum = {"in": rnd.randrange(n_in), "seed": rnd.randrange(100), "fault": rnd.choice(["rng_raise", "rng_interrupt", "rng_value", "embed_fail"]),
                 "max": 6}
     return {"kind": "history", "prop": "C10", "inputs": inputs, "ops": ops, "global_seed": rnd.randrange(1 << 30), "enumerate": enum,
-            "fresh_interpreter": tier == "thorough" and rnd.random() < 0.03}
+            # process restart: the inputs are described and generated again in fresh interpreters under other string hash seeds
+            "fresh_interpreter": rnd.random() < (0.03 if tier == "thorough" else 0.02),
+            "fresh_hashseeds": [str(h) for h in rnd.sample(range(1, 100000), 2)]}
 
 
 class _Client:
@@ -757,9 +759,10 @@ def _fresh_interpreter_check(spec, cl):
     for i, inp in enumerate(spec["inputs"]):
         reqs.append({"what": "describe", "text": inp["text"], "kind": inp["kind"]})
         reqs.append({"what": "generate", "text": inp["text"], "kind": inp["kind"], "rng": "numpy", "seed": 7})
+        reqs.append({"what": "generate", "text": inp["text"], "kind": inp["kind"], "rng": "numpy", "seed": 1 + spec.get("global_seed", 0) % 97})
     code = ("import sys, json; sys.path.insert(0, %r); from gbsim.props import c10; from gbsim import boot; boot.load();"
             "reqs=json.loads(sys.stdin.read()); print(json.dumps([list(c10._baseline_compute(r)) for r in reqs]))" % (os.path.dirname(os.path.dirname(os.path.dirname(os.path.abspath(__file__)))),))
-    for hs in ("1", "98765"):
+    for hs in spec.get("fresh_hashseeds", ("1", "98765")):
         env = dict(os.environ)
         env["PYTHONHASHSEED"] = hs
         p = subprocess.run([sys.executable, "-c", code], input=json.dumps(reqs), capture_output=True, text=True, env=env, timeout=600)
@@ -772,6 +775,7 @@ def _fresh_interpreter_check(spec, cl):
             if [x for x in row[:4]] != [x for x in list(b)[:4]]:
                 return f"{r} gives {row[:4]} under PYTHONHASHSEED={hs} and {list(b)[:4]} in the baseline"
     cl.count("fresh_interpreter_checks")
+    cl.stats["fault:process_restart"] = cl.stats.get("fault:process_restart", 0) + 2
     return None
 
 
